@@ -294,7 +294,7 @@ pub fn record(seed: u64, n: usize, bin: &str, out: &str, rep: &mut Report) {
             ("tokens", String::new(), srv.tokens(uri))
         } else {
             let text = crate::analyzer::random_file(&mut rng);
-            if open.contains_key(uri) { open.insert(uri, text.clone()); ("change", text.clone(), srv.change(uri, &text)) }
+            if open.contains_key(uri) && rng.gen_bool(0.8) { open.insert(uri, text.clone()); ("change", text.clone(), srv.change(uri, &text)) }
             else { open.insert(uri, text.clone()); ("open", text.clone(), srv.open(uri, &text)) }
         };
         rep.count("requests");
